@@ -84,6 +84,14 @@ def struct (j : Json) : Json :=
     let eAt (i : Nat) : Option Int := es.map (fun l => l.getD i 0)
     obj [("L", optJ (raggedSlice (RA.ofRows rows) ss es)),
          ("S", toJson (((List.range n).zip rows).map (fun ir => Spec.window ir.2 (sAt ir.1) (eAt ir.1))))]
+  | "ragged_slice_1d" =>
+    let a := jIntList (fld j "a"); let ss := jIntList (fld j "starts"); let es := jIntList (fld j "ends")
+    obj [("L", optJ (raggedSlice1d a ss es)),
+         ("S", toJson ((ss.zip es).map (fun se => Spec.window a (some se.1) (some se.2))))]
+  | "ragged_slice_2d" =>
+    let rows := jIntRows (fld j "rows"); let ss := jIntList (fld j "starts"); let es := jIntList (fld j "ends")
+    obj [("L", optJ (raggedSlice2d rows (fldNat j "c") ss es)),
+         ("S", toJson (List.zipWith (fun (r : List Int) (se : Int × Int) => Spec.window r (some se.1) (some se.2)) rows (ss.zip es)))]
   | "padded" =>
     let rows := jIntRows (fld j "rows")
     let fill := fldInt j "fill"
